@@ -227,12 +227,23 @@ func (an *Analysis) mustSucceed(c *Call, T time.Duration) (bool, arrival) {
 		// ties between arrivals at the same instant are the scheduler's: only judge when the order is unambiguous
 		for j, o := range arr {
 			if j != i && o.at == a.at {
+				if c.Route.Path == "broadcast" && !(len(o.data) == 64 && model.Serial(o.data) == S) {
+					continue // ignored whichever comes first
+				}
 				return false, arrival{}
 			}
 		}
 		exp := model.Decode(c.St.Op, &c.St.Args, a.data, model.Ctx{})
 		if exp.Fail != 0 {
 			return false, arrival{}
+		}
+		// a reply that the kernel dropped because even a receive buffer of the default size was full is the
+		// network's doing; one dropped from a buffer the library shrank is still the library's to answer for
+		tag := fmt.Sprintf("@%d.%d.%d", c.Task, c.Step, a.idx)
+		for _, l := range c.Lost {
+			if strings.HasSuffix(l.Note, tag) && l.Err == "rcvbuf" {
+				return false, arrival{}
+			}
 		}
 		return true, a
 	}
@@ -464,6 +475,12 @@ func checkC11(an *Analysis, add func(Violation)) {
 				early++
 			}
 		}
+		for _, l := range c.Lost {
+			// dropped only because the library shrank its receive buffer: as good as arrived
+			if l.T < wake && l.Err == "rcvbuf-shrunk" {
+				early++
+			}
+		}
 		if len(c.ReadFails) == 0 && len(c.Reads) < early {
 			v("stopped-collecting", fmt.Sprintf("%d datagrams reached the discovery socket before the timeout but only %d were read: the collector stopped early (last read: %s)", early, len(c.Reads), lastRead(c)))
 			continue
@@ -472,6 +489,13 @@ func checkC11(an *Analysis, add func(Violation)) {
 			e        model.Expect
 			optional bool
 			data     []byte
+		}
+		// when each datagram reached the socket (the world tags every emission; the kernel logs the tag with the read)
+		arrivedAt := map[string]time.Duration{}
+		for _, a := range c.Arrived {
+			if _, seen := arrivedAt[a.Note]; !seen {
+				arrivedAt[a.Note] = a.T
+			}
 		}
 		var exps []exp
 		for _, d := range c.Reads {
@@ -493,7 +517,11 @@ func checkC11(an *Analysis, add func(Violation)) {
 				}
 			}
 			x := exp{e: e, data: d.Data}
-			if e.Fail != 0 || d.T >= wake || serial == 0 { // a read at the very instant of the wake-up is a tie
+			at, known := arrivedAt[d.Dst]
+			if !known {
+				at = d.T
+			}
+			if e.Fail != 0 || at >= wake || serial == 0 { // a datagram that arrives at the very instant of the wake-up is a tie
 				x.optional = true
 			}
 			e.Fail = 0
